@@ -293,6 +293,7 @@ def normalize(scn, raw):
                 ret_at[k] = j
                 ret_skip.add(j)
     out = []
+    deferred_accept = {}
     for i, e in enumerate(ev):
         n = e["e"]
         if i in ret_at:
@@ -324,14 +325,20 @@ def normalize(scn, raw):
             out.append({"e": "Block", "p": e["p"]})
         elif n in ("p.seg.enter", "p.seg.exit"):
             out.append({"e": "SegEnter" if n.endswith("enter") else "SegExit", "p": e["p"], "flavour": e["flavour"]})
+        elif n == "guard.acquire" and i in deferred_accept:
+            # (the call takes effect where it tries the guard: that is its place in the trace)
+            out.append({"e": "AcceptCall", "r": deferred_accept[i], "ok": bool(e["ok"])})
         elif n == "accept.call":
             ok = None
-            for f in ev[i + 1:]:
+            for j, f in enumerate(ev[i + 1:], i + 1):
                 if f["tid"] == e["tid"] and f["e"] == "guard.acquire":
                     ok = bool(f["ok"])
+                    deferred_accept[j] = e["r"]
                     break
                 if f["tid"] == e["tid"] and f["e"] == "accept.ret":
                     break
+            if ok is not None:
+                continue
             if ok is None:
                 nxt = next((f for f in ev[i + 1:] if f["tid"] == e["tid"] and f["e"] in ("accept.ret", "mr.running.set")), None)
                 ok = not (nxt is not None and nxt["e"] == "accept.ret" and nxt.get("exc") == "RuntimeError" and not nxt.get("wrapped"))
